@@ -1,6 +1,6 @@
 From Coq Require Extraction.
 From Coq Require Import ExtrOcamlBasic.
-From NV Require Import Base.Witness Index.Bins Index.Chunks Index.ChunksAny Index.Layout Index.Indexer Index.CsiLoffset Index.CsiLayout Index.TextIndex.
+From NV Require Import Base.Witness Index.Bins Index.Chunks Index.ChunksAny Index.Layout Index.Indexer Index.CsiLoffset Index.CsiLayout Index.TextIndex Index.GziKinds.
 Extraction "model.ml" nv_types_witness reg2bin reg2bins optimize_chunks merge_sorted add_chunk
   w_bai read_bai w_gzi read_gzi mkbai mkbref mkmeta build_ref query reread_loffs mkrec bins loffs
-  w_csi read_csi w_tbi read_tbi w_fai read_fai w_crai read_crai.
+  w_csi read_csi w_tbi read_tbi w_fai read_fai w_crai read_crai read_gzi_k.
